@@ -92,6 +92,16 @@ STD_ENUMS = {
 }
 
 
+PRUNER = None  # set by the runner for obligations with prune=True (mir2smt.prune.Pruner)
+
+
+def feasible(st, cond):
+    """Solver-backed feasibility of a branch (only when a pruner is installed; otherwise every branch is kept)."""
+    if PRUNER is None or cond.is_const:
+        return True
+    return PRUNER.feasible(st.pc, cond)
+
+
 class State:
     def __init__(self):
         self.pc = []  # list of T (Bool)
@@ -269,7 +279,8 @@ def _last_seg(t):
     t = _norm_ty(t)
     # drop leading path segments but keep generics: a::b::Div<i32> -> Div<i32>
     m = re.match(r"^((?:[A-Za-z_0-9]+::)*)(.*)$", t)
-    return m.group(2).replace(" ", "")
+    # module paths inside the generic arguments are dropped too: AddAssign<common::Scaled> -> AddAssign<Scaled>
+    return re.sub(r"(?:[A-Za-z_0-9]+::)+", "", m.group(2)).replace(" ", "")
 
 
 def _base(t):
@@ -385,6 +396,17 @@ class Executor:
                 base, rest = m.group(1), m.group(2)
             loc, proj = self.parse_place(base)
             rest = rest.strip()
+            while rest.startswith("["):
+                mi = re.match(r"\[(_\d+)\]", rest)
+                mc = re.match(r"\[(\d+) of (\d+)\]", rest)
+                if mi:
+                    proj = proj + [("index", mi.group(1))]
+                    rest = rest[mi.end():].strip()
+                elif mc:
+                    proj = proj + [("cindex", int(mc.group(1)))]
+                    rest = rest[mc.end():].strip()
+                else:
+                    raise Unsupported("place: " + p)
             if rest.startswith("."):
                 m = re.match(r"\.(\d+): ", rest)
                 return loc, proj + [("field", int(m.group(1)))]
@@ -562,7 +584,7 @@ class Executor:
                     pay[idx] = [self.eval_const(fn, x, st) for x in split_top(inner)]
                 return Enum(idx, pay, ety)
         # const item in the dump: Type::NAME or fnpath::promoted[k]
-        name = c
+        name = re.sub(r"::<[^<>]*>", "", c)  # LineBreaker::<'_>::f::<F>::promoted[1] -> LineBreaker::f::promoted[1]
         cands = []
         segs = name.split("::")
         for k in range(len(segs)):
@@ -656,6 +678,12 @@ class Executor:
             args = split_top(m.group(2))
             vals = [self.eval_operand(fn, a, st, frame) for a in args]
             ty = self.operand_type(fn, args[0])
+            if ty is None and len(args) > 1 and op not in ("Shl", "Shr", "ShlUnchecked", "ShrUnchecked"):
+                ty = self.operand_type(fn, args[1])  # e.g. SubWithOverflow(const AWFUL_BAD, copy _7)
+            if ty is None and op.endswith("WithOverflow"):
+                mt = re.match(r"^\((.*), bool\)$", (self.local_type(fn, lhs) or "").strip())
+                if mt:
+                    ty = mt.group(1)
             return self.eval_op(fn, op, vals, ty, self.local_type(fn, lhs), st)
         # tuple
         if r.startswith("(") and r.endswith(")"):
@@ -705,6 +733,11 @@ class Executor:
             if len(segs) >= 2 and segs[-2] in self.prog.enums and segs[-1] in self.prog.enums[segs[-2]]:
                 idx = self.prog.enums[segs[-2]][segs[-1]]
                 return Enum(idx, {idx: args} if has_args else {}, segs[-2])
+            if len(segs) == 1 and not has_args:
+                # bare variant of an imported enum (`_1 = Explicit;`): the destination's type names the enum
+                lty = _strip_generics(self.local_type(fn, lhs) or "").split("::")[-1]
+                if lty in self.prog.enums and segs[0] in self.prog.enums[lty]:
+                    return Enum(self.prog.enums[lty][segs[0]], {}, lty)
             # tuple struct (or unit struct)
             return Agg(args)
         raise Unsupported("rvalue: " + r)
@@ -786,7 +819,10 @@ class Executor:
             if it is None:
                 raise Unsupported(f"{op} on {ty}")
             a, b = vals
-            raw = {"A": tm.add, "S": tm.sub, "M": tm.mul}[op[0]](a, b)
+            if op[0] == "M" and getattr(self, "uf_mul", None) and not a.is_const and not b.is_const:
+                raw = self.uf_mul(a, b, st)  # summarised symbolic x symbolic product (+ its lemmas on the path)
+            else:
+                raw = {"A": tm.add, "S": tm.sub, "M": tm.mul}[op[0]](a, b)
             return Overflowed(raw, it[0], it[1])
         if op in ("Add", "Sub", "Mul", "AddUnchecked", "SubUnchecked", "MulUnchecked"):
             if it is None:
@@ -906,8 +942,13 @@ class Executor:
                 if cond.is_const and not cond.val:
                     continue
                 viable.append((cond, tgt))
+            if len(viable) > 1 and PRUNER is not None:
+                viable = [(c, t_) for (c, t_) in viable if feasible(st, c)]
+                if not viable:
+                    return None
             if not viable:
                 return None
+            last = None
             for i, (cond, tgt) in enumerate(viable):
                 s2 = st if i == len(viable) - 1 else st.fork()
                 s2.assume(cond)
@@ -993,7 +1034,9 @@ class Executor:
         for pat, model in self.models:
             mm = pat.match(callee)
             if mm:
-                return model(self, mm, args, argtys, st, fn)
+                r = model(self, mm, args, argtys, st, fn)
+                if r is not NotImplemented:  # a model may decline (e.g. a summary that only applies to symbolic operands)
+                    return r
         # 2. functions in the dump
         target = self.resolve(callee, fn)
         if target is not None:
